@@ -2,6 +2,9 @@
 (* T1 configuration of ProblemKindLattice: constants come from the tables of *)
 (* the real problem_kind_versioning module (ProblemKindLatticeTables).       *)
 EXTENDS ProblemKindLattice, ProblemKindLatticeTables
+\* T1 visits every ordered pair of kinds as (object 1, object 2): queries on <<1, 2>> (on <<1, 1>> while
+\* only one object exists) cover all operand pairs
+FirstPair(lv) == {<<1, IF 2 \in lv THEN 2 ELSE 1>>}
 \* every value a query returns obeys the bound / upgrade laws (checked on every transition)
 RetLaws == [][RetOK']_vars
 =============================================================================
